@@ -84,7 +84,7 @@ Qed.
 Theorem err_response_wf v ts reason msg :
   ver_ok v -> clock_ok ts -> reason_ok reason -> msg_ok msg ->
   exists b, err_response v ts reason msg = Some b
-    /\ zlen b = 144 + zlen msg + pad_len (zlen msg)
+    /\ zlen b = 136 + zlen msg + pad_len (zlen msg)
     /\ dec_err_response b = Some {| ef_version := v; ef_ts := ts; ef_count := 1; ef_status := OPERATION_FAILED;
                                     ef_reason := reason; ef_msg := msg |}.
 Proof.
@@ -102,42 +102,52 @@ Proof.
   pose proof (enc_prim_len _ _ _ Ema) as Lma. pose proof (enc_prim_len _ _ _ Emi) as Lmi.
   pose proof (enc_prim_len _ _ _ Ets) as Lts. pose proof (enc_prim_len _ _ _ Ebc) as Lbc.
   pose proof (enc_prim_len _ _ _ Ers) as Lrs. pose proof (enc_prim_len _ _ _ Err) as Lrr.
-  pose proof (enc_prim_len _ _ _ Erm) as Lrm. cbn beta iota in *.
+  pose proof (enc_prim_len _ _ _ Erm) as Lrm. cbn beta iota in Lma, Lmi, Lts, Lbc, Lrs, Lrr, Lrm.
   pose proof (pad_len_small (zlen msg)) as Hpad. pose proof (zlen_nonneg msg) as Hmn.
+  unfold TWO31 in Hlen.
   unfold err_response. rewrite Ema, Emi, Ets, Ebc, Ers, Err, Erm. cbn [cat2].
   (* protocol version *)
+  assert (Bpv : zlen (bma ++ bmi) = 32) by (rewrite zlen_app; clear - Lma Lmi; lia).
   destruct (enc_struct_some T_PROTOCOL_VERSION (bma ++ bmi)) as (hpv & Hhpv & Epv & Lpv);
-    [rewrite zlen_app; unfold TWO32; lia|].
-  rewrite Epv. cbn [cat2]. rewrite zlen_app in Lpv.
+    [rewrite Bpv; reflexivity|].
+  rewrite Epv. cbn [cat2]. rewrite Bpv in Lpv.
   (* header *)
+  assert (Bh : zlen (((hpv ++ bma ++ bmi) ++ bts) ++ bbc) = 72)
+    by (rewrite !zlen_app; rewrite !zlen_app in Lpv; clear - Lpv Lts Lbc; lia).
   destruct (enc_struct_some T_RESPONSE_HEADER (((hpv ++ bma ++ bmi) ++ bts) ++ bbc)) as (hh & Hhh & Eh & Lh);
-    [rewrite !zlen_app in *; unfold TWO32; lia|].
-  rewrite Eh. cbn [cat2].
+    [rewrite Bh; reflexivity|].
+  rewrite Eh. cbn [cat2]. rewrite Bh in Lh.
   (* batch item *)
+  assert (Bi : zlen ((brs ++ brr) ++ brm) = 40 + zlen msg + pad_len (zlen msg))
+    by (rewrite !zlen_app; clear - Lrs Lrr Lrm; lia).
   destruct (enc_struct_some T_BATCH_ITEM ((brs ++ brr) ++ brm)) as (hi & Hhi & Ei & Li);
-    [rewrite !zlen_app in *; unfold TWO31, TWO32 in *; lia|].
-  rewrite Ei. cbn [cat2].
+    [rewrite Bi; unfold TWO32; clear - Hpad Hmn Hlen; lia|].
+  rewrite Ei. cbn [cat2]. rewrite Bi in Li.
   (* message *)
+  assert (Bm : zlen ((hh ++ ((hpv ++ bma ++ bmi) ++ bts) ++ bbc) ++ hi ++ (brs ++ brr) ++ brm)
+               = 128 + zlen msg + pad_len (zlen msg))
+    by (rewrite (zlen_app (hh ++ _)), Lh, Li; clear; lia).
   destruct (enc_struct_some T_RESPONSE_MESSAGE ((hh ++ ((hpv ++ bma ++ bmi) ++ bts) ++ bbc) ++ hi ++ (brs ++ brr) ++ brm))
-    as (hm & Hhm & Em & Lm); [rewrite !zlen_app in *; unfold TWO31, TWO32 in *; lia|].
+    as (hm & Hhm & Em & Lm); [rewrite Bm; unfold TWO32; clear - Hpad Hmn Hlen; lia|].
   rewrite Em. eexists. split; [reflexivity|]. split.
-  - rewrite !zlen_app in *. lia.
+  - rewrite Lm, Bm. clear; lia.
   - (* read it back *)
+    cbn [ptype_of] in Dma, Dmi, Dts, Dbc, Drs, Drr, Drm.
     unfold dec_err_response.
     rewrite <- (app_nil_r (hm ++ _)). rewrite (dec_struct_enc _ _ _ [] TM Hhm).
     rewrite (dec_struct_enc _ _ _ _ TH Hhh).
     rewrite <- !app_assoc.
     replace (hpv ++ bma ++ bmi ++ bts ++ bbc) with ((hpv ++ bma ++ bmi) ++ bts ++ bbc) by (rewrite <- !app_assoc; reflexivity).
     rewrite (dec_struct_enc _ _ _ _ TPV Hhpv).
-    rewrite (Dma bmi). cbn [ptype_of].
-    rewrite <- (app_nil_r bmi). rewrite (Dmi []). cbn [ptype_of].
-    rewrite (Dts bbc). cbn [ptype_of].
-    rewrite <- (app_nil_r bbc). rewrite (Dbc []). cbn [ptype_of].
+    rewrite (Dma bmi).
+    rewrite <- (app_nil_r bmi). rewrite (Dmi []).
+    rewrite (Dts bbc).
+    rewrite <- (app_nil_r bbc). rewrite (Dbc []).
     replace (hi ++ brs ++ brr ++ brm) with ((hi ++ (brs ++ brr) ++ brm) ++ []) by (rewrite app_nil_r, <- !app_assoc; reflexivity).
     rewrite (dec_struct_enc _ _ _ [] TBI Hhi).
     rewrite <- !app_assoc.
-    rewrite (Drs (brr ++ brm)). cbn [ptype_of].
-    rewrite (Drr brm). cbn [ptype_of].
-    rewrite <- (app_nil_r brm). rewrite (Drm []). cbn [ptype_of].
+    rewrite (Drs (brr ++ brm)).
+    rewrite (Drr brm).
+    rewrite <- (app_nil_r brm). rewrite (Drm []).
     destruct v; reflexivity.
 Qed.
